@@ -185,11 +185,16 @@ func (a *Analysis) loadByteTables() {
 		if !ok {
 			continue
 		}
-		sl, ok := pt.Elem().Underlying().(*types.Slice)
-		if !ok {
+		var el types.Type
+		switch u := pt.Elem().Underlying().(type) {
+		case *types.Slice:
+			el = u.Elem()
+		case *types.Array:
+			el = u.Elem()
+		default:
 			continue
 		}
-		if b, ok := sl.Elem().Underlying().(*types.Basic); ok && b.Kind() == types.Uint8 {
+		if b, ok := el.Underlying().(*types.Basic); ok && b.Kind() == types.Uint8 {
 			if vals, err := tables.EvalByteTable(a.P, name); err == nil {
 				a.byteTabs[name] = vals
 			}
